@@ -414,7 +414,8 @@ def run(ctx):
             nontrivial.add(core.canon(l["prog"]["nodes"]))
     ctx.cov["distinct_nontrivial"] = len(nontrivial)
     ctx.cov["outcomes"] = outcomes
-    ctx.cov["programs"] = {"tlc": len(programs), "mutants": len(mut), "with_dangling_reference": sum(1 for l in lines if l["dangling"]),
+    ctx.cov["programs"] = len(lines)
+    ctx.cov["program_counts"] = {"tlc": len(programs), "mutants": len(mut), "with_dangling_reference": sum(1 for l in lines if l["dangling"]),
                            "with_misplaced_call": sum(1 for l in lines if l["misplaced"]), "max_calls": max(len(l["prog"]["nodes"]) for l in lines)}
     ctx.cov["seed_outcomes"] = {vectors[l["i"]]["seed"] + "#%d" % l["prog"]["id"]: l["res"]["outcome"] for l in lines if l["origin"] == "tlc" and "seed" in vectors[l["i"]]}
     function_coverage(ctx, host, lines)
